@@ -261,8 +261,9 @@ def run_check(pid, tier, jobs=None, only=None, verbose=False):
             "vacuity_twins": {"run": len(twins), "refuted": twins_refuted},
             "functions_encoded": functions,
             "bounds": {h.name: {"ranges": h.tier(tier)["ranges"], "partition": h.tier(tier)["partition"],
-                                "fixed": h.tier(tier)["fixed"], "cpu_timeout_per_obligation_s": h.tier(tier)["timeout"]}
-                       for h in spec.harnesses},
+                                "fixed": h.tier(tier)["fixed"], "extra_pre": h.tier(tier).get("extra_pre", []),
+                                "cpu_timeout_per_obligation_s": h.tier(tier)["timeout"]}
+                       for h in spec.harnesses if h.present(tier)},
             "extra_bounds": spec.bounds.get(tier, spec.bounds.get("all", {})),
             "solver_cpu_s": solver_cpu,
             "unknown_detail": [{"harness": r["ob"].get("harness"), "fixed": r["ob"].get("fixed"), "why": (r.get("why") or "")[:300]} for r in unknown][:20],
